@@ -9,6 +9,9 @@ import vlib
 
 def describe(o, s=None):
     pol = "".join("P" if w["out"] == "pending" else "a" for w in o["w"])
+    if s:
+        ops = [x["op"] for x in s.get("sched", [])]
+        pol += (" abandon" if "abandon" in ops else "") + (" vectored" if "wv" in ops else "")
     rd = "".join("P" if w["out"] == "pending" else "r" for w in o["r"])
     return "src=%s writes=%s switchAfter=%s wpolls=%s rpolls=%s" % (o["src"], o["ws"], o["sw"], pol[:24], rd[:24])
 
@@ -22,7 +25,7 @@ def run(prop, tier):
     notes = []
     states = transitions = 0
     scheds = []
-    cfgs = ["MC_CipherWriteQuick.cfg", "MC_CipherReadQuick.cfg"] if tier == "quick" else ["MC_CipherWrite.cfg", "MC_CipherRead.cfg"]
+    cfgs = ["MC_CipherWriteQuick.cfg", "MC_CipherVecQuick.cfg", "MC_CipherReadQuick.cfg"] if tier == "quick" else ["MC_CipherWrite.cfg", "MC_CipherRead.cfg"]
     for cfg in cfgs:
         r = vlib.run_tlc("MC_Cipher", cfg, wd, workers=4, timeout=1800)
         if not r.ok:
@@ -36,6 +39,10 @@ def run(prop, tier):
     if r.ok or r.violated != "C05":
         raise vlib.ToolError("MC_CipherAsFound.cfg is expected to violate C05 (vacuity guard), got %s" % r.violated)
     notes.append("MC_CipherAsFound.cfg: C05 violated as expected (keystream advanced on Pending / partial accept)")
+    r = vlib.run_tlc("MC_Cipher", "MC_CipherStalled.cfg", wd, workers=1, timeout=600)
+    if r.ok or r.violated != "C05":
+        raise vlib.ToolError("MC_CipherStalled.cfg is expected to violate C05 (vacuity guard for abandoned writes), got %s" % r.violated)
+    notes.append("MC_CipherStalled.cfg: C05 violated as expected (ciphertext of a stalled attempt kept for other bytes)")
     inp = os.path.join(wd, "schedules.ndjson")
     outp = os.path.join(wd, "observed.ndjson")
     vlib.write_ndjson(inp, scheds)
@@ -51,7 +58,7 @@ def run(prop, tier):
         clauses = sorted(f["clauses"])
         first = next((w["out"] for w in o["w"] if w["acc"] != w["rep"] or w["match"] != w["acc"]), "-")
         kind = "first-bad-write-poll=%s" % first
-        sig = "%s %s [%s %s]" % (prop, "+".join(clauses), kind, describe(o))
+        sig = "%s %s [%s %s]" % (prop, "+".join(clauses), kind, describe(o, scheds[f["line"] - 1] if f["line"] <= len(scheds) else None))
         rep.violation(sig, {"failing_clauses": clauses, "schedule": scheds[f["line"] - 1] if f["line"] <= len(scheds) else "random (seeded)",
                             "observed": o, "seed": seed})
     # the encrypted stream at CONNECTION level: the switch from plaintext to ciphertext inside one segment (pipelined client), every
@@ -85,8 +92,9 @@ def run(prop, tier):
         "samples": [scheds[0], scheds[len(scheds) // 2], {"observed": observed[len(scheds) // 2]}],
         "evaluations": len(observed),
         "distinct_nontrivial": len(nontrivial),
-        "rule": "schedules = every complete behaviour of Cipher.tla under the listed configs (poll outcomes Pending / Accept k, arrival portions, read capacities "
-                "down to 1, pre-filled buffers, switch point) + seeded random schedules over 1-4 KiB payloads; each abstract byte is 1, 7, 16 or 17 concrete bytes; "
+        "rule": "schedules = every complete behaviour of Cipher.tla under the listed configs (poll outcomes Pending / Accept k, a buffer abandoned after Pending, "
+                "two-slice vectored writes, arrival portions, read capacities down to 1, pre-filled buffers, switch point) + seeded random schedules over 1 B - 40 KB payloads "
+                "(sizes around 4 / 8 / 16 KiB included; abandon and vectored writes mixed in); each abstract byte is 1, 7, 16 or 17 concrete bytes; "
                 "non-trivial = contains a Pending or a partial accept",
         "exhaustive": True,
         "tlc": notes + ["Trace_Cipher: %d records judged in %.1fs" % (len(observed), tr.wall)],
